@@ -351,6 +351,50 @@ theorem reps_adequate (L : List Atom) (W : World) :
     ∃ W' ∈ reps L, ∀ a ∈ L, W'.val a = W.val a :=
   ⟨repWorld L W, repWorld_mem L W, repWorld_val L W⟩
 
+/-! ## Abstract policies and the brute-force enumeration of assignments -/
+
+theorem mem_atomsOfList {a : Atom} : ∀ {l : List Pol.Policy} {p : Pol.Policy}, p ∈ l → a ∈ Pol.atomsOf p →
+    a ∈ Pol.atomsOfList l
+  | q :: qs, p, hp, ha => by
+    rw [Pol.atomsOfList]
+    rcases List.mem_cons.mp hp with h | h
+    · subst h; exact List.mem_append_left _ ha
+    · exact List.mem_append_right _ (mem_atomsOfList h ha)
+
+theorem countA_congr (v w : Atom → Bool) (subs : List Pol.Policy)
+    (ih : ∀ p ∈ subs, Pol.holdsA v p = Pol.holdsA w p) : Pol.countA v subs = Pol.countA w subs := by
+  induction subs with
+  | nil => rfl
+  | cons q qs ihq =>
+    simp only [Pol.countA]
+    rw [ih q (List.mem_cons_self), ihq (fun p hp => ih p (List.mem_cons_of_mem _ hp))]
+
+/-- `holdsA` looks at the assignment only on the atoms of the policy -/
+theorem holdsA_congr (v w : Atom → Bool) :
+    ∀ q : Pol.Policy, (∀ a ∈ Pol.atomsOf q, v a = w a) → Pol.holdsA v q = Pol.holdsA w q := by
+  intro q
+  induction q using Pol.Policy.induct' with
+  | unsat => intro _; rfl
+  | trivial => intro _; rfl
+  | atom a => intro h; simp only [Pol.holdsA]; exact h a (by simp [Pol.atomsOf])
+  | thresh k subs ih =>
+    intro h
+    simp only [Pol.holdsA]
+    rw [countA_congr v w subs (fun p hp => ih p hp (fun a ha => h a (by
+      rw [Pol.atomsOf]; exact mem_atomsOfList hp ha)))]
+
+/-- every assignment agrees, on a given list of atoms, with one of those `forallVals` tries -/
+theorem forallVals_spec (atoms : List Atom) (f : (Atom → Bool) → Bool)
+    (h : Pol.forallVals atoms f = true) (v : Atom → Bool) :
+    ∃ w, f w = true ∧ ∀ a ∈ atoms, w a = v a := by
+  unfold Pol.forallVals at h
+  have hm := filter_mem_subsets v atoms.eraseDups
+  refine ⟨Pol.valOf (atoms.eraseDups.filter v), List.all_eq_true.mp h _ hm, ?_⟩
+  intro a ha
+  unfold Pol.valOf
+  rw [Bool.eq_iff_iff, List.contains_iff_mem, List.mem_filter, List.mem_eraseDups]
+  simp [ha]
+
 /-! ## Small facts used by the property theorems -/
 
 theorem any_congr_mem {α} (f g : α → Bool) : ∀ l : List α, (∀ x ∈ l, f x = g x) → l.any f = l.any g
